@@ -135,4 +135,15 @@ CHECKS = {
                         "the re-entrancy half is sequential and deterministic",
                         COMMON_ASSUMPTIONS[0]],
     },
+    "C10": {
+        "level": "exploration",
+        "tests": [{"name": "TestC10Golden", "quick": 0},
+                  {"name": "TestC10Small", "quick": 1500, "thorough": 48000},
+                  {"name": "TestC10Blocks", "quick": 40, "thorough": 1280, "min_per_shard": 20},
+                  {"name": "TestC10Wide", "quick": 15, "thorough": 480, "min_per_shard": 8}],
+        "assumptions": ["the reference is harness/refice: the pinned ice sources at commit 76983be with only the package clause renamed (plus one added export file), compiled into the harness",
+                        "facets where the reference itself is defective are excluded by construction and counted in the labels (excluded:*)",
+                        "a format change confined to a structure none of the three scenario families produces would pass",
+                        COMMON_ASSUMPTIONS[0]],
+    },
 }
